@@ -422,9 +422,11 @@ func c20HeaderBody(a *An, rfs []*ssa.Function) {
 			a.R.fail("anchor unresolved: %s: the body loops over the removed, added and unchanged lines were not all found (%s)", fn.Name(), strings.Join(bw, "; "))
 			continue
 		}
-		okBody = okBody && fieldsOf["-"] == fieldsOf[" "] && textOf["-"] == textOf[" "] && textOf["-"] != textOf["+"] && fieldsOf["-"] != fieldsOf["+"] &&
+		// unchanged lines may be printed from either text (they are equal by the matcher's invariant), by that text's pair
+		ctxOK := (fieldsOf[" "] == fieldsOf["-"] && textOf[" "] == textOf["-"]) || (fieldsOf[" "] == fieldsOf["+"] && textOf[" "] == textOf["+"])
+		okBody = okBody && ctxOK && textOf["-"] != textOf["+"] && fieldsOf["-"] != fieldsOf["+"] &&
 			fieldsOf["-"][0] != fieldsOf["-"][1] && fieldsOf["+"][0] != fieldsOf["+"][1]
-		a.R.ob("C20.7", "body-sources@"+fn.Name(), "unchanged and removed lines are slices of the first text by one pair of opcode fields, added lines slices of the second text by the other pair", a.P.pos(fn.Pos()), okBody, strings.Join(bw, "; "))
+		a.R.ob("C20.7", "body-sources@"+fn.Name(), "removed lines are slices of the first text by one pair of opcode fields, added lines slices of the second text by the other pair, unchanged lines either of the two", a.P.pos(fn.Pos()), okBody, strings.Join(bw, "; "))
 		// header: first element's lo field, last element's hi field, '-' pair first
 		for i, sign := range []string{"-", "+"} {
 			lb, lf := lastField(hs[i].lo)
